@@ -401,3 +401,42 @@ def config_file_order_ignores_hash_order(rot: int, rev: bool, v1: int, v2: int) 
             and list(sec["options"])[-2:] == ["only1", "only2"]
     finally:
         _ps.Order.rot, _ps.Order.rev = 0, False
+
+
+# ------------------------------------------------------------------------------------------------ command line defaults vs. file values
+import argparse as _argparse          # noqa: E402
+import pathlib as _pathlib            # noqa: E402
+
+from nunavut.cli import _make_parser  # noqa: E402
+from nunavut.cli.runners import ArgparseRunner  # noqa: E402
+
+_PARSER = _make_parser()
+
+
+def cli_defaults_never_displace_file_values(file_endianness: int, flag_endianness: int, file_asserts: bool, flag_asserts: bool) -> bool:
+    """
+    pre: 0 <= file_endianness <= 2 and 0 <= flag_endianness <= 2
+    post: _
+    """
+    # "values that are merely defaults of the command line never displace a value given explicitly in a file": the REAL argument parser
+    # (its own defaults), the real ArgparseRunner._create_language_context, a configuration file as parsed
+    names = [None, "little", "big"]
+    argv = ["/dsdl/root", "--target-language", "c", "--configuration", "cfgfile"]
+    if names[flag_endianness]:
+        argv = ["--target-endianness", names[flag_endianness]] + argv
+    if flag_asserts:
+        argv = ["--enable-serialization-asserts"] + argv
+    args = _PARSER.parse_args(argv)
+    opts = {}
+    if names[file_endianness]:
+        opts["target_endianness"] = names[file_endianness]
+    if file_asserts:
+        opts["enable_serialization_asserts"] = True
+    _DOCS.clear()
+    _DOCS["cfgfile"] = {_SEC: {"options": opts}} if opts else {}
+    r = object.__new__(ArgparseRunner)
+    r._args = args
+    lang = r._create_language_context().get_target_language()
+    want_e = names[flag_endianness] or names[file_endianness] or "any"
+    want_a = bool(flag_asserts or file_asserts)
+    return lang.get_option("target_endianness") == want_e and bool(lang.get_option("enable_serialization_asserts")) == want_a
